@@ -255,6 +255,16 @@ def b_path_div(ex, a, b, st):
     return Rec("Path", {"t": JOIN(a.attrs["t"], ex.as_obj(b))})
 
 
+def n_with_suffix(ex, st, args, kwargs):
+    """Path.with_suffix / with_name: a name that is a FUNCTION of the original path (so every caller computing it for the
+    same key gets the same file: it is NOT owned by this call, unlike a tempfile.mkstemp name)."""
+    p, suffix = args[0], args[1]
+    if not isinstance(suffix, str):
+        raise Unsupported("with_suffix with a symbolic suffix")
+    f = z3.Function(f"fmt:with_suffix{suffix}", Obj, Obj)
+    yield st, Rec("Path", {"t": JOIN(z3.Const("derived_dir", Obj), f(p.attrs["t"]))})
+
+
 def n_mkdir(ex, st, args, kwargs):
     fs = interfere(ex, st)
     record(ex, st, "Path.mkdir(exist_ok=True; parents=True)", [], fs)
@@ -441,7 +451,7 @@ def executor(mode: str) -> XExecutor:
     ex.allowed_real_calls = False
     ex.exc_modules = [pickle]
     ex.natives.update({
-        "Path": n_path, "Path.mkdir": n_mkdir, "Path.exists": n_exists, "open": n_open, "File.__enter__": n_enter, "File.__exit__": n_exit,
+        "Path": n_path, "Path.mkdir": n_mkdir, "Path.with_suffix": n_with_suffix, "Path.with_name": n_with_suffix, "Path.exists": n_exists, "open": n_open, "File.__enter__": n_enter, "File.__exit__": n_exit,
         "pickle.dump": n_dump, "pickle.load": n_load, "tempfile.mkstemp": n_mkstemp, "os.fdopen": n_fdopen, "os.replace": n_replace,
         "isinstance": n_isinstance, "len": n_len, "str": n_str, "hash": n_hash, "int": n_int, "os.environ.get": n_environ_get,
         "hashlib.sha256": _uf1(SHA), "obj.hexdigest": _uf1(HEX), "obj.encode": _uf1(ENC), "obj.isdigit": n_isdigit, "obj.doit": _uf1(DOIT),
